@@ -169,7 +169,7 @@ type c48Append struct {
 }
 
 type c48Step struct {
-	Op       string // tx truncate restart
+	Op       string      // tx truncate restart
 	V2       bool        `json:",omitempty"`
 	Rollback bool        `json:",omitempty"`
 	Appends  []c48Append `json:",omitempty"`
@@ -507,7 +507,7 @@ func runAgentHistory(c c48Case, r *ev.Rec, st *c48Stats) error {
 	var maxMint int64 = c48None
 	lowerMint := false // some truncation used a lower mint than an earlier one
 	restarts := 0
-	collected := false // some truncation collected a series (model)
+	collected := false             // some truncation collected a series (model)
 	apiRefs := map[uint64]string{} // every ref an appender handed out -> label set
 	refs := map[int]storage.SeriesRef{}
 	nontrivial := false
